@@ -18,7 +18,12 @@ import edzed
 from ..explore import Acc
 from ..harness import Sim, stop
 from .. import nets
-from ..nets import same, xor_fn
+from ..nets import xor_fn
+
+
+def same(x, y):
+    """The library detects output changes with ==, so True and 1 are the same output."""
+    return x == y
 
 PROPERTY = 'C01'
 LEVEL = 'model_checking'
@@ -45,6 +50,7 @@ ASSUMPTIONS = [
 
 BOOL = (False, True)
 CNT = (0, 3, 4, 6)
+NUM = (0, 1, 2, 3, '')     # truthy values other than True / 1: gates must not rely on 0/1
 GATES = ('and', 'or', 'xor')
 FN_KINDS = ('fnP', 'fnT', 'fnK', 'fnG', 'fnM')
 
@@ -96,6 +102,15 @@ def configs(tier):
     srcs = ('bool', 'bool', 'cnt')
     for b0 in block_options(2, 0, allkinds, full, full, consts, None, cnt_idx=2):
         out.append(dict(srcs=srcs, blocks=(b0,), fb=None))
+    # A2: the same one-block networks over non-boolean values (0, 1, 2, 3, '')
+    for b0 in block_options(2, 0, allkinds[:-1], ('obj', 'not'), (), consts[:1], None):
+        out.append(dict(srcs=('num', 'num'), blocks=(b0,), fb=None))
+    # F: feedback into the block's OWN cone: a comparator (or function block) resets the counter
+    # it watches, i.e. a sequential block changes twice in one burst
+    for variant in ('compare', 'func-edge', 'not-not'):
+        for limit in (1, 2, 3):
+            for nobs in (0, 2):
+                out.append(dict(loopback=(variant, limit, nobs)))
     # B: two blocks, the second refers to the first (every style)
     srcs2 = ('bool', 'bool')
     b0s = block_options(2, 0, allkinds[:-1], ('obj', 'not'), (), [(True, True)], None)
@@ -103,7 +118,7 @@ def configs(tier):
                                     ordered=(tier != 'quick'))
            if uses(b, ('b', 0))]
     if tier == 'quick':
-        b0s = [b for i, b in enumerate(b0s) if b[0] in ('not', 'and', 'xor', 'ovrF', 'fnP', 'fnG')]
+        b0s = [b for i, b in enumerate(b0s) if b[0] in ('not', 'xor', 'ovrF', 'fnG')]
     for b0 in b0s:
         for b1 in b1s:
             out.append(dict(srcs=srcs2, blocks=(b0, b1), fb=None))
@@ -201,7 +216,7 @@ def build(cfg, vec0):
     nets.install_rank_hash()
     srcs = []
     for i, (kind, v) in enumerate(zip(cfg['srcs'], vec0)):
-        if kind == 'bool':
+        if kind in ('bool', 'num'):
             srcs.append(edzed.Input(f's{i}', initdef=v))
         else:
             srcs.append(edzed.Counter(f's{i}', initdef=v))
@@ -255,7 +270,7 @@ def build(cfg, vec0):
 
 
 def domains(cfg):
-    return [BOOL if k == 'bool' else CNT for k in cfg['srcs']]
+    return [BOOL if k == 'bool' else NUM if k == 'num' else CNT for k in cfg['srcs']]
 
 
 _PLANS = {}
@@ -340,12 +355,114 @@ def run_network(cfg, perm, acc):
     return viol
 
 
+def run_loopback(cfg, acc):
+    from ..stategraph import bfs
+    variant, limit, nobs = cfg['loopback']
+    ops = [('inc', None), ('inc', 2), ('put', 1), ('put', 0), ('put', limit + 1), ('put', limit)]
+    alphabet = [(o,) for o in ops] + [(o1, o2) for o1 in ops[:3] for o2 in ops]
+
+    def ref_settle(cnt, full):
+        for _ in range(10):
+            new = cnt >= limit
+            if new == full:
+                break
+            full = new
+            if full:
+                cnt = 0
+        return cnt, full
+
+    def build_net():
+        nets.install_rank_hash()
+        cnt = edzed.Counter('cnt')
+        cbs = []
+        if variant == 'compare':
+            top = edzed.Compare('full', low=limit, high=limit,
+                                on_output=edzed.Event(cnt, edzed.EventCond('reset', None))).connect(cnt)
+            cbs.append(top)
+        elif variant == 'func-edge':
+            top = edzed.FuncBlock('full', func=lambda c: c >= limit, on_output=edzed.Event(
+                cnt, 'put', efilter=[edzed.Edge(rise=True), edzed.DataEdit.add(value=0)])).connect(cnt)
+            cbs.append(top)
+        else:
+            c0 = edzed.Compare('ge', low=limit, high=limit).connect(cnt)
+            n1 = edzed.Not('n1').connect(c0)
+            top = edzed.Not('full', on_output=edzed.Event(cnt, edzed.EventCond('reset', None))).connect(n1)
+            cbs += [c0, n1, top]
+        obs = []
+        if nobs:
+            obs.append(edzed.Not('o1').connect(top))
+            obs.append(edzed.FuncBlock('o2', func=lambda c, f: (c, f)).connect(cnt, top))
+        return cnt, top, cbs + obs, obs
+
+    def run_perm(perm):
+        def run(hist):
+            viol = []
+            with Sim() as sim:
+                cnt, top, cbs, obs = build_net()
+                nets.set_ranks(cbs, perm)
+                st = {}
+
+                async def driver():
+                    task = asyncio.create_task(sim.circuit.run_forever())
+                    await sim.circuit.wait_init()
+                    await sim.loop.idle()
+                    rc, rf = ref_settle(0, False)
+                    for burst in hist:
+                        for op, arg in burst:
+                            kw = {}
+                            if op == 'inc' and arg is not None:
+                                kw['amount'] = arg
+                            if op == 'put':
+                                kw['value'] = arg
+                            edzed.ExtEvent(cnt, op).send(**kw)
+                            rc = rc + (arg or 1) if op == 'inc' else arg
+                        await sim.loop.idle()
+                        rc, rf = ref_settle(rc, rf)
+                        if sim.circuit.error is not None:
+                            viol.append(('simulation-died', f"{sim.circuit.error!r}"))
+                            break
+                        got = (cnt.output, top.output)
+                        if got != (rc, rf):
+                            viol.append(('own-cone-feedback',
+                                         f"{cfg['loopback']} rank order {perm}, bursts {list(hist)}: "
+                                         f"idle with counter={got[0]}, comparator={got[1]!r}; "
+                                         f"expected counter={rc}, comparator={rf!r}"))
+                            break
+                        if obs and (obs[0].output is not (not rf) or obs[1].output != (rc, rf)):
+                            viol.append(('own-cone-feedback',
+                                         f"{cfg['loopback']} rank order {perm}, bursts {list(hist)}: "
+                                         f"observers {[o.output for o in obs]} with counter={rc}, "
+                                         f"comparator={rf!r}"))
+                            break
+                    st['canon'] = (cfg['loopback'], perm, cnt.output, tuple(b.output for b in cbs))
+                    await stop(sim.circuit)
+                    del task
+                sim.run(driver())
+            return (None if viol else st['canon']), viol
+        return run
+    ncb = {'compare': 1, 'func-edge': 1, 'not-not': 3}[variant] + nobs
+    perms = list(itertools.permutations(range(ncb)))
+    if len(perms) > 24:
+        perms = perms[::5]
+    for perm in perms:
+        def on_step(hist, hc, sym, canon, info):
+            acc.outcome((cfg['loopback'], perm, hc, sym, canon))
+            for sig, msg in info:
+                acc.violation(f"C01:{sig}", msg, cfg=cfg, detail={'history': list(hist)})
+        res = bfs(run_perm(perm), alphabet, acc, max_depth=6, on_step=on_step)
+        acc.count('loopback_graphs_closed' if res['closed'] else 'loopback_graphs_open')
+    acc.sample({'loopback': cfg['loopback'], 'bursts': len(alphabet)}, limit=2)
+    return acc
+
+
 def cfg_key(cfg):
     return (cfg['srcs'], cfg['blocks'], cfg['fb'])
 
 
 def run_config(cfg):
     acc = Acc()
+    if 'loopback' in cfg:
+        return run_loopback(cfg, acc)
     m = len(cfg['blocks'])
     for perm in itertools.permutations(range(m)):
         viol = run_network(cfg, perm, acc)
